@@ -167,3 +167,55 @@ Theorem chain_full_strcase : forall P, valid_package_strcase P ->
                     /\ reach (image_env to_snake P) k x)
     /\ cr_swagger r = Ok tt.
 Proof. intros P Hv. apply chain_full. apply valid_package_strcase_valid. exact Hv. Qed.
+
+(* ------------------------------------------------------------------ ... and for camelCase names WITH digits *)
+(* lower_camel_d (proofs/StrcaseProofs.v, builder ent): letters and digits, starting lower-case, no capital
+   after a capital, no lower-case letter after a digit (address2Line, fooB2, v12Beta); adjacent capitals
+   (userID / userId) stay outside: ToSnake maps both to user_id *)
+Definition all_lower_camel_d (props : list str) : Prop := Forall (fun n => lower_camel_d n = true) props.
+
+Lemma snake_inj_lower_camel_d props : all_lower_camel_d props -> snake_inj to_snake props.
+Proof.
+  intros H n m Hn Hm E. unfold all_lower_camel_d in H. rewrite Forall_forall in H.
+  apply to_snake_injective_lower_camel_d; auto.
+Qed.
+
+Lemma snake_ok_lower_camel_d props : all_lower_camel_d props -> snake_ok to_snake props.
+Proof.
+  intros H n Hn. unfold all_lower_camel_d in H. rewrite Forall_forall in H.
+  pose proof (lower_camel_d_ident n (H n Hn)) as Hi. split.
+  - apply ident_no_slash. exact Hi.
+  - apply ident_no_slash. apply to_snake_ident. exact Hi.
+Qed.
+
+Definition valid_package_strcase_d (P : decl_package) : Prop :=
+  Forall (fun d => 1 <= df_verb d <= 5 /\ df_parts d <> []
+                   /\ Forall (wf_part (map p_json (df_req d))) (df_parts d)
+                   /\ all_lower_camel_d (map p_json (df_req d))) (all_methods P)
+  /\ NoDup (map df_name (all_methods P))
+  /\ Forall (fun d => is_query_request (df_req d) = true -> exists root, list_root (df_resp d) = Ok root) (all_methods P)
+  /\ all_refs_link (im_schemas (compile_image to_snake P)) = true
+  /\ wf_env (im_schemas (compile_image to_snake P))
+  /\ (forall k, In k (map fst (dp_schemas P)) -> fst k <> dp_pkg P ++ DOT :: SERVICE).
+
+Lemma valid_package_strcase_d_valid P : valid_package_strcase_d P -> valid_package to_snake P.
+Proof.
+  intros (H1 & H2 & H3 & H4 & H5 & H6). unfold valid_package.
+  split; [|split; [exact H2|split; [exact H3|split; [exact H4|split; [exact H5|exact H6]]]]].
+  rewrite Forall_forall in H1. rewrite Forall_forall. intros d Hd. destruct (H1 d Hd) as (Hv & Hne & Hf & Hlc).
+  unfold wf_decl, df_decl. cbn [dm_verb dm_parts dm_props].
+  split; [exact Hv|]. split; [exact Hne|]. split; [exact Hf|].
+  split; [apply snake_inj_lower_camel_d; exact Hlc|apply snake_ok_lower_camel_d; exact Hlc].
+Qed.
+
+Theorem chain_full_strcase_d : forall P, valid_package_strcase_d P ->
+  let r := run_chain current_config (compile_image to_snake P) in
+  exists ks,
+    cr_source r = Ok (declared_api P)
+    /\ cr_client r = Ok (declared_clients to_snake P, ks)
+    /\ (forall x, In x ks <->
+          present (image_env to_snake P) x /\
+          exists k, In k (flat_map method_roots (declared_clients to_snake P)) /\ present (image_env to_snake P) k
+                    /\ reach (image_env to_snake P) k x)
+    /\ cr_swagger r = Ok tt.
+Proof. intros P Hv. apply chain_full. apply valid_package_strcase_d_valid. exact Hv. Qed.
